@@ -29,11 +29,21 @@ SAT_GRACE_S = float(os.environ.get("PYVC_SAT_GRACE_S", "90"))
 TMP = os.environ.get("PYVC_TMP", "/var/tmp")
 
 
+_sat_time = [0.0, 0]
+
+
 def _saturated(pc):
+    t0 = time.time()
     try:
         return list(pc) + saturate(pc)
     except z3.Z3Exception:
         return list(pc)
+    finally:
+        _sat_time[0] += time.time() - t0
+        _sat_time[1] += 1
+        if os.environ.get("PYVC_TRACE"):
+            import sys
+            print("[saturate] total %.1fs over %d calls" % tuple(_sat_time), file=sys.stderr)
 
 
 def vc_smt2(vc, pc=None):
